@@ -21,7 +21,7 @@ hooks = {
     "guard": "verif",
     "enable": "go build -tags verif,faketime (CGO_ENABLED=0) for the virtual-time harness; go build -race -tags verif for the race harness; both through the harness module's replace github.com/atlassian/escalator => /repo",
     "baseline_off_cmd": "cd /repo && GOFLAGS=-mod=mod GOPROXY=off GOSUMDB=off go test -json -vet=off -count=1 -timeout 25m ./...",
-    "source_commits": ["9a8964d", "0e07709", "60da094"],
+    "source_commits": ["9a8964d", "0e07709", "60da094", "bf589f6"],
     "add_only": True,
 }
 claimed = [p for p in sorted(PROPS) if PROPS[p].get("claimed", True)]
